@@ -156,6 +156,7 @@ def prepare(pid, ob=None, quiet=False):
                     ob.broken.append(dict(kind="forbidden", what=m, detail=ln.strip()[:200]))
         # audit file
         names = theorem_names(pid)
+        ob.theorems = names
         audit = os.path.join(LEAN, "RexModel", "Audit", pid + ".lean")
         content = f"import RexModel.Props.{pid}\n" + "".join(f"#print axioms {n}\n" for n in names)
         os.makedirs(os.path.dirname(audit), exist_ok=True)
